@@ -1,4 +1,5 @@
 import Driver.Util
+import MdspanVerif.Model.ElemCv
 import Driver.Ext
 import MdspanVerif.Model.Types2
 /-! `c16*` op families: overload participation / explicitness rules evaluated on type descriptors. -/
@@ -35,6 +36,11 @@ def c16Line (fam : String) (rest : List String) : String :=
       let d : MdsT := ⟨de, dm, ⟨de⟩⟩; let s : MdsT := ⟨se, sm, ⟨se⟩⟩
       s!"ctor={fmtB (Impl.mdsConstructible d s)} conv={fmtB (Impl.mdsConvertible d s)} hard={fmtB (Impl.mdsHardError d s)} acc={fmtB (Impl.accConstructible d.acc s.acc)}"
     | _, _ => "bad-op"
+  | "acccv" =>
+    -- `c16 acccv d=<base><c?><v?> s=...`: default_accessor<T> from default_accessor<U>, both cv-qualifiers
+    let pe (s : String) : ElemCv := ⟨((s.takeWhile Char.isDigit).toString.toNat?).getD 0, s.contains 'c', s.contains 'v'⟩
+    let d := pe ((getKey rest "d").getD "0"); let s := pe ((getKey rest "s").getD "0")
+    s!"ctor={fmtB (accCvConstructible d s)} conv={fmtB (accCvConvertible d s)}"
   | "args" =>
     let g (k : String) : Nat := (((getKey rest k).getD "0").toNat?).getD 0
     let b (k : String) : Bool := (getKey rest k).getD "0" == "1"
